@@ -413,8 +413,14 @@ def judge_attenuation(ctx, ev, origin):
         return
     if ev.exc is not None:
         if isinstance(ev.exc, sc.VariancesError) and var_bcast:
-            ctx.count('undecided:variances_broadcast_refused')
+            # genuine defect (recorded as a known finding): the law cannot be evaluated at all for
+            # materials whose tabulated cross-sections carry an uncertainty when the wavelength (or
+            # density) has more dims than the cross-section, because scipp refuses to broadcast variances
             ctx.hit('att:variances_broadcast')
+            ctx.violation('attenuation_refused_variances',
+                          'attenuation_coefficient raised VariancesError: a cross-section with tabulated '
+                          'uncertainty cannot be combined with a dense wavelength/density', case,
+                          exc='VariancesError', variances_need_broadcast=True)
             return
         ctx.violation('attenuation_raised', f'attenuation_coefficient raised {type(ev.exc).__name__}: '
                       f'{ev.exc}', case, exc=type(ev.exc).__name__)
@@ -1007,4 +1013,8 @@ def _row_bookkeeping(ctx, t, fn, fn_file, nm, out, pass_no):
         ctx.sample({'function': fn, 'name': nm, 'table': fn_file, 'outcome': out})
 
 
-FINDING_PREDICATES: dict = {}
+FINDING_PREDICATES: dict = {
+    'material.attenuation_variances_broadcast': lambda v: (
+        v['kind'] == 'attenuation_refused_variances' and v['keys'].get('exc') == 'VariancesError'
+        and v['keys'].get('variances_need_broadcast') is True),
+}
